@@ -49,9 +49,13 @@ def requests(tier, rng):
             L.append("sign::%s::keypair %s -" % (s, xi.hex()))
             _band.add(xi.hex())
     # corpus of key seeds for which a secret polynomial is sampled from a "tight" stream (kat/eta_tight_seeds.json)
-    tight = json.load(open(os.path.join(core.VERIF, "kat", "eta_tight_seeds.json")))["keygen"]
+    corpus = json.load(open(os.path.join(core.VERIF, "kat", "eta_tight_seeds.json")))
+    tight = corpus["keygen"]
     for s in SETS:
         for xi in tight.get(s, [])[: (3 if tier == "quick" else 8)]:
+            L.append("sign::%s::keypair %s -" % (s, xi))
+        # ... and seeds for which an entry of A meets two or more out-of-range candidates in a row
+        for xi in corpus.get("keygen_rej_runs", {}).get(s, [])[: (3 if tier == "quick" else 6)]:
             L.append("sign::%s::keypair %s -" % (s, xi))
     for s in SETS:
         seeds = ["00" * 32, "ff" * 32] + [bytes(rng.randrange(256) for _ in range(32)).hex() for _ in range(n_rand)]
